@@ -168,6 +168,7 @@ type Evaluator struct {
 	globals  map[*ssa.Global]*Obj
 	Exceeded bool // the instruction budget was exhausted: results are incomplete
 	started  time.Time
+	mapLast  map[string]mapWrite // per map: the last update (key, value, path condition)
 	curCond  *Term
 	RootRets []RetAlt
 	// symbolicElems: a symbolic index into a local array that holds only zero
@@ -1177,11 +1178,22 @@ func (ev *Evaluator) instr(fr *frame, ins ssa.Instruction, st *State) {
 			ev.Events = append(ev.Events, Event{Callee: "maplookup", Args: []Val{fr.get(ev, x.X), fr.get(ev, x.Index)}, Pos: x.Pos(), State: st.clone(), Cond: ev.curCond})
 		}
 		fr.env[x] = symVal("lookup("+valKey(fr.get(ev, x.X))+","+valKey(fr.get(ev, x.Index))+")", x.Type())
+		if _, isMap := x.X.Type().Underlying().(*types.Map); isMap && !x.CommaOk {
+			// m[k] right after m[k] = v under the same path condition reads v
+			mk := valKey(fr.get(ev, x.X))
+			if last, ok := ev.mapLast[mk]; ok && last.key == valKey(fr.get(ev, x.Index)) && last.cond == condKey(ev.curCond) {
+				fr.env[x] = last.val
+			}
+		}
 		if x.CommaOk {
 			fr.env[x] = &Tuple{Elems: []Val{symVal("lookup("+valKey(fr.get(ev, x.X))+","+valKey(fr.get(ev, x.Index))+")", x.Type().(*types.Tuple).At(0).Type()), A("ok?")}}
 		}
 	case *ssa.MapUpdate:
 		ev.Events = append(ev.Events, Event{Callee: "mapupdate", Args: []Val{fr.get(ev, x.Map), fr.get(ev, x.Key), fr.get(ev, x.Value)}, Pos: x.Pos(), State: st.clone(), Cond: ev.curCond})
+		if ev.mapLast == nil {
+			ev.mapLast = map[string]mapWrite{}
+		}
+		ev.mapLast[valKey(fr.get(ev, x.Map))] = mapWrite{key: valKey(fr.get(ev, x.Key)), val: fr.get(ev, x.Value), cond: condKey(ev.curCond)}
 	case *ssa.Range:
 		fr.env[x] = &Sym{Path: "range(" + valKey(fr.get(ev, x.X)) + ")", T: x.Type()}
 	case *ssa.Next:
@@ -1643,9 +1655,18 @@ func recordRec(name string, init, step Val) {
 	case *Sym:
 		if m := materialise(x); m != Val(x) {
 			recordRec(name, m, step)
+			return
 		}
+		valRecs[name] = [2]Val{init, step}
+	default:
+		// slices and other values that are not terms: kept as they are (a sliding window
+		// `w = w[n:]` over a table row is read by the kernel analysis)
+		valRecs[name] = [2]Val{init, step}
 	}
 }
+
+// valRecs: loop-carried values that are not scalar terms (initial value, value after one turn).
+var valRecs = map[string][2]Val{}
 
 // solveGeometric rewrites, inside t, every loop-carried value that doubles per iteration
 // (init 1; step 2·μ, μ+μ or μ<<1) as 1 << j, where j is the counter of the same loop
@@ -1684,4 +1705,18 @@ func solveGeometric(t *Term) *Term {
 		}
 		return nil
 	})
+}
+
+// mapWrite: the most recent update of a map, used to read the same key back in straight-line code.
+type mapWrite struct {
+	key  string
+	val  Val
+	cond string
+}
+
+func condKey(c *Term) string {
+	if c == nil {
+		return ""
+	}
+	return c.Key()
 }
